@@ -57,7 +57,7 @@ def run(ctx):
             broken.append("coqchk rejects Props/C14.vo: " + cout[-800:])
     if not proofs["ok"]:
         broken.append("proof obligations of Props/C14.v do not check: %s" % (proofs.get("broken_files") or proofs.get("nonstd_axioms") or proofs["log"][-800:]))
-    n = ctx.n(14, 120)
+    n = ctx.n(12, 200)
     hr = vf.go_harness(ctx, "gitindex", "TestVerifC14$", ["gitindex/zz_verif_c14_test.go"], n,
                        timeout=900 if ctx.tier == "quick" else 5400)
     recs = hr["records"]
